@@ -96,8 +96,12 @@ def oracle(script: dict, run: Any) -> List[Violation]:
                         if not (fn_enter is None and h.first(d, "dep_fail") is not None):
                             out.append(Violation("C02/saved-ack-before-finish", f"when_saved: delivery {d} acknowledged at event {a[0]} before its task function finished and without a store attempt"))
         # exactly once for completed processing
-        if kind == "valid" and not crashed and cb_exit is not None and cb_exit[5].get("how") == "ok" and not acks:
-            out.append(Violation("C02/never-acked", f"delivery {d} (message {k}) completed processing on {node} but was never acknowledged (ack type {ack_type})", d=d))
+        if kind == "valid" and not crashed and cb_exit is not None and not acks:
+            # no fault kind used by this check makes callback() raise legitimately (no failing hooks, acks or cancellations are scripted),
+            # so processing that ended - however it ended - without the acknowledgement is a message that is never acknowledged
+            how = cb_exit[5].get("how")
+            tail = "" if how == "ok" else f"; callback() ended with {how}"
+            out.append(Violation("C02/never-acked", f"delivery {d} (message {k}) completed processing on {node} but was never acknowledged (ack type {ack_type}){tail}", d=d))
     # Oracle B: consequences after real crashes and redelivery
     if w is not None and h.kind("crash") and not w.server.queue and not w.server.in_transit:
         settled = h.kind("settled")
